@@ -621,6 +621,38 @@ def _batched(res, rng, thorough):
         res.count("batched:external_pool", 2)
         if not np.array_equal(got, seq) or not np.array_equal(got2, seq):
             res.violation(f"batched:external_pool:{name}", f"misorientation_indices(pool=...) = {got.tolist()} differs from {seq.tolist()}", rep)
+    # an externally supplied THREAD pool (multiprocessing.pool.ThreadPool is a Pool): the snapshots are then evaluated concurrently in
+    # this very process, so any shared scratch state shows; and a pool that has seen a failing call is still the caller's pool
+    from multiprocessing.pool import ThreadPool
+    name, st = stacks[0]
+    sysm = _lat(G, name)
+    st8 = np.concatenate([st, st[::-1]])[:8] if len(st) >= 4 else st
+    seq = np.array([D.misorientation_index(s_, sysm) for s_ in st8])
+    rep = {"system": name, "stack_shape": list(st8.shape)}
+    with ThreadPool(4) as tp:
+        for round_ in range(3 if not thorough else 10):
+            got = np.asarray(D.misorientation_indices(st8, sysm, pool=tp))
+            res.evaluations += 1
+            res.count("batched:external_thread_pool")
+            if got.shape != seq.shape or not np.allclose(got, seq, rtol=0, atol=1e-12):
+                res.violation("batched:external_thread_pool", f"misorientation_indices(pool=ThreadPool(4)) = {got.tolist()} differs from the sequential "
+                              f"values {seq.tolist()}", rep)
+                break
+        bad = st8.copy()
+        bad[1, 0] = np.nan           # one snapshot that cannot be evaluated
+        try:
+            D.misorientation_indices(bad, sysm, pool=tp)
+            res.count("batched:nan_snapshot_returned")
+        except Exception as e:  # noqa: BLE001
+            res.count(f"batched:nan_snapshot_raised:{type(e).__name__}")
+        try:
+            again = np.asarray(D.misorientation_indices(st8, sysm, pool=tp))
+            res.evaluations += 1
+            if not np.allclose(again, seq, rtol=0, atol=1e-12):
+                res.violation("batched:pool_after_failed_call:differs", "a valid call on the caller's pool after a failed call gives other values", rep)
+        except Exception as e:  # noqa: BLE001
+            res.violation(f"batched:pool_after_failed_call:raises:{type(e).__name__}", f"after one call on the caller's pool failed, the next valid call on the "
+                          f"same pool raises {type(e).__name__}: {str(e)[:120]} (the pool is the caller's; a failing snapshot must not close it)", rep)
     # the model of the pool: any completion order gives the per-snapshot values in order
     lines, want = [], []
     for k in range(12 if not thorough else 200):
